@@ -243,7 +243,11 @@ func (o *ovsdbClient) moveEndpointLast(i int) {
 
 func (o *ovsdbClient) resetRPCClient() {
 	if o.rpcClient != nil {
+		disconnected := o.rpcClient.DisconnectNotify()
 		o.rpcClient.Close()
+		// its read loop may be in the middle of a notification: what it
+		// applies must not land in the cache the next attempt fills
+		<-disconnected
 		o.rpcClient = nil
 	}
 }
